@@ -18,8 +18,10 @@ CONSTRAINT HighWater
 POSTCONDITION Accepted
 """
 # (mode, writers on A, concurrent readers on A, writers on B, messages per writer, when A closes)
-CONN_QUICK = [("tls", 2, 2, 1, 4, "after"), ("gm", 2, 1, 1, 4, "after"), ("tls", 3, 2, 2, 5, "during"), ("gm", 3, 1, 2, 5, "during"), ("tls", 1, 1, 1, 3, "during")]
-CONN_THOROUGH = CONN_QUICK + [("tls", 4, 2, 2, 8, "after"), ("gm", 4, 1, 2, 8, "after"), ("tls", 4, 2, 3, 8, "during"), ("gm", 4, 1, 3, 8, "during")] * 3
+# "half": A half-closes (CloseWrite) in the middle while B keeps writing and A keeps reading
+CONN_QUICK = [("tls", 2, 2, 1, 4, "after"), ("gm", 2, 1, 1, 4, "after"), ("tls", 3, 2, 2, 5, "during"), ("gm", 3, 1, 2, 5, "during"), ("tls", 1, 1, 1, 3, "during"),
+              ("gm", 1, 1, 3, 6, "half"), ("tls", 2, 1, 3, 6, "half")]
+CONN_THOROUGH = CONN_QUICK + [("tls", 4, 2, 2, 8, "after"), ("gm", 4, 1, 2, 8, "after"), ("tls", 4, 2, 3, 8, "during"), ("gm", 4, 1, 3, 8, "during"), ("gm", 2, 1, 4, 8, "half"), ("tls", 2, 2, 4, 8, "half")] * 3
 
 # (mode, clients, handshakes per client, rotations)
 # several handshakes of every client fall between two rotations: the first of them offers a ticket under the OLD key, and
